@@ -690,6 +690,24 @@ class Evaluator:
         summary.env = fr.env
         return summary
 
+    def _annotated_arity(self, v):
+        """n when `v` is the opaque result of a package function annotated `-> Tuple[T1, ..., Tn]` (fixed length), else None."""
+        if not (isinstance(v, T) and v.op == "app" and isinstance(v.args[0], str) and v.args[0].startswith(self.prog.pkgname + ".") and tm.tyof(v) == tm.TUPLE):
+            return None
+        cache = self.__dict__.setdefault("_arity_cache", {})
+        q = v.args[0]
+        if q not in cache:
+            cache[q] = None
+            try:
+                fi = self.prog.function(q)
+                r = fi.node.returns
+                if isinstance(r, ast.Subscript) and (dotted_parts(r.value) or [""])[-1] in ("Tuple", "tuple") and isinstance(r.slice, ast.Tuple) and \
+                        not any(isinstance(x, ast.Constant) and x.value is Ellipsis for x in r.slice.elts):
+                    cache[q] = len(r.slice.elts)
+            except Exception:
+                pass
+        return cache[q]
+
     def _is_base_of(self, base, cls, depth=0):
         """Is package class `base` (module name, class name) among the package base classes of `cls`?"""
         m = self.prog.modules.get(cls[0])
@@ -3555,6 +3573,9 @@ class Evaluator:
                 if len(pos) > 1:
                     return pos[1]
         if n == "len":
+            ar_ = self._annotated_arity(a0)
+            if ar_ is not None:
+                return ar_
             return tm.length(a0)
         if n in _OPERATOR_FNS and len(pos) == _OPERATOR_FNS[n][1] and not kw:
             return self.binop(_OPERATOR_FNS[n][0](), pos[0], pos[1], e)
@@ -3816,6 +3837,12 @@ class Evaluator:
                 return "builtins.object" in exts
             if crefs and len(crefs) == len(want0) and not isinstance(a0, _Obj) and (tm.is_conc(a0) or (isinstance(a0, T) and a0.op not in ("param", "ite", "app", "proj", "idx", "attr", "unk", "lookup", "get") and tm.tyof(a0) != tm.ANY)):
                 return False  # a plain value (number, bytes, a term of builtin type) is not an instance of a package class
+        if n == "isinstance" and len(pos) == 2 and isinstance(a0, T) and self._annotated_arity(a0) is not None:
+            # the result of a package function annotated `-> Tuple[A, B]` (the annotation already types the term)
+            want = pos[1] if isinstance(pos[1], (tuple, list)) else (pos[1],)
+            names = [w.args[0] for w in want if isinstance(w, T) and w.op == "ext"]
+            if len(names) == len(want) and all(nm.startswith("builtins.") for nm in names):
+                return bool({"builtins.tuple", "builtins.object"} & set(names))
         if n == "isinstance" and len(pos) == 2 and type(a0) in (list, tuple, dict) and not (isinstance(a0, tuple) and a0 and isinstance(a0[0], str) and a0[0].startswith("#")):
             want = pos[1] if isinstance(pos[1], (tuple, list)) else (pos[1],)
             names = [w.args[0] for w in want if isinstance(w, T) and w.op == "ext"]
